@@ -428,6 +428,10 @@ class FitBase(FileIOMixin, object):
         # a pointwise cost function selected by an earlier do_fit is only valid for the uncorrelated uncertainties it was selected for
         self._fitter.parameter_to_minimize = self._cost_function.name
 
+    def _uncertainties_are_uncorrelated(self):
+        """Whether the pointwise version of the cost function can stand in for the full one during a whole minimization."""
+        return is_diagonal(self.total_cov_mat)
+
     def _set_data_as_model_ref(self):
         for _err in self._param_model.get_matching_errors({"relative": True}).values():
             _old_ref = _err.reference
@@ -1119,7 +1123,7 @@ class FitBase(FileIOMixin, object):
             check_numerical_range(self.model, "model values (pre-fit)")
 
         if self._cost_function_pointwise is not None:
-            if is_diagonal(self.total_cov_mat):
+            if self._uncertainties_are_uncorrelated():
                 _cost_target = self._cost_function_pointwise.name
             else:
                 _cost_target = self._cost_function.name
